@@ -6,7 +6,7 @@ case kinds
   {"kind": "valid-<how>", "mapped": r1, "truth": r2, "x": .., "y": ..}         AAMValidator.smiles_check(r1, r2, RC / ITS); <how> in
         self | renum | reroot | swap-noneq | swap-eq | swap-other | cross
   {"kind": "bal-<how>", "rsmi": r}                                             BalanceReactionCheck.rsmi_balance_check(r); <how> in
-        corpus | std | frag | del | dup | charge | dropH | addH | hand
+        corpus | std | frag | del | dup | charge | dropH | addH | addHfrag | hand
   {"kind": "std", "rsmi": r, "variants": [[how, r'], ...]}                     Standardize().fit: oracle only (pure RDKit)
 
 Observables (graph level): canonical reactant graph, mapping_pairs, canonical product graph (node ids, all attributes);
@@ -437,7 +437,7 @@ def gen_cases(tier, rng):
         cases.append(dict(kind="bal-hand", rsmi=r))
 
     # ---- canonicaliser
-    chosen = (rng.sample(us, 14) + rng.sample(ec, 10)) if q else corp
+    chosen = (rng.sample(us, 10) + rng.sample(ec, 8)) if q else corp
     for s, i, r in chosen:
         src = "%s#%d" % (s, i)
         cases += _canon_cases("corpus", r, src=src)
@@ -456,7 +456,7 @@ def gen_cases(tier, rng):
                 cases += _canon_cases(how, v, orig=r, src=src, backends=(rng.choice(BACKENDS),) if q else BACKENDS)
 
     # ---- validator
-    chosen = (rng.sample(us, 30) + rng.sample(ec, 14)) if q else corp
+    chosen = (rng.sample(us, 22) + rng.sample(ec, 10)) if q else corp
     for n_, (s, i, r) in enumerate(chosen):
         src = "%s#%d" % (s, i)
         cases.append(dict(kind="valid-renum", mapped=R.renumber_maps(r, rng), truth=r, src=src))
@@ -475,7 +475,7 @@ def gen_cases(tier, rng):
             cases.append(dict(kind="valid-cross", mapped=chosen[n_ + 1][2], truth=r, src=src))
 
     # ---- balance
-    chosen = (rng.sample(us, 20) + rng.sample(ec, 30)) if q else corp
+    chosen = (rng.sample(us, 10) + rng.sample(ec, 16)) if q else corp
     for s, i, r in chosen:
         src = "%s#%d" % (s, i)
         cases.append(dict(kind="bal-corpus", rsmi=r, src=src))
@@ -488,7 +488,7 @@ def gen_cases(tier, rng):
             cases.append(dict(kind="bal-" + how, rsmi=v, src=src))
 
     # ---- Standardize (oracle only)
-    chosen = (rng.sample(us, 25) + rng.sample(ec, 25)) if q else corp
+    chosen = (rng.sample(us, 15) + rng.sample(ec, 15)) if q else corp
     for s, i, r in chosen:
         vs = []
         for how in ("renum", "reroot", "frag"):
